@@ -388,7 +388,7 @@ def run(ctx):
 
 
 def explore(ctx, runner, ok):
-    nseq = ctx.n(600, 20000)
+    nseq = ctx.n(3000, 20000)
     if not ok:
         nseq = max(nseq, 5000)
     hist = {}
@@ -400,10 +400,10 @@ def explore(ctx, runner, ok):
                 seqs.append(list(t))
         ctx.cov["exhaustive_alphabet"] = ALPHABET
     else:
-        for L in range(1, 3):
+        for L in range(1, 4):
             for t in itertools.product(ALPHABET, repeat=L):
                 seqs.append(list(t))
-        ctx.cov["exhaustive_alphabet_length_le_2"] = ALPHABET
+        ctx.cov["exhaustive_alphabet_length_le_3"] = ALPHABET
     for ops in seqs:
         for o in ops:
             w = o.split()
